@@ -25,6 +25,13 @@ func (processor *Processor) Process(data []byte, context *base.DataProcessorCont
 		logger.Debugln("Has pattern")
 		newData, err := processor.decryptor.Process(data, context)
 		if err != nil || bytes.Equal(newData, data) {
+			if !processor.decryptor.MatchDataSignature(data) {
+				// bytes that only look like a container header (for example inside the clear
+				// part of a masked value) are not an envelope: there is nothing to hide, and
+				// replacing them would destroy data that was never encrypted
+				logger.Debugln("Not an envelope, leave as is")
+				return data, nil
+			}
 			logger.Debugln("Mask data")
 			return []byte(setting.GetMaskingPattern()), nil
 		}
